@@ -17,7 +17,11 @@ RtFails(ln) ==
 
 (* C04: whatever was changed, the outcome is an error, a network attempt or the original plaintext; *)
 (* the field-class prediction of Blob!Outcome is compared only as drift                             *)
-TamperFails(ln) == IF ln.res = "plain_different" THEN {"modified_blob_decrypted_to_different_plaintext"} ELSE {}
+(* the original plaintext may come back only when the change touched fields that influence neither keys nor ciphertext: *)
+(* a change inside the wrapped CEK, the GCM nonce, the ciphertext or the tag (sealed = TRUE) must be an error             *)
+TamperFails(ln) ==
+  (IF ln.res = "plain_different" THEN {"modified_blob_decrypted_to_different_plaintext"} ELSE {})
+  \cup (IF ln.res = "plain_ok" /\ ln.sealed THEN {"change_to_ciphertext_tag_nonce_or_wrapped_key_was_accepted"} ELSE {})
 TamperDrift(ln) == \A i \in 1 .. Len(ln.allowed) : ln.allowed[i] # ln.res
 
 (* C19: fold NoReuse over a history of protect events with interned values                          *)
